@@ -70,6 +70,21 @@ CHECKS = {
    "Every sequence up to the completed depth over names forced to collide (case pairs, packing-range characters, table marker, reserved characters, table names, \\u{5} names, 31/32-unit names) and contents on both sides of the mini-stream cutoff; after each step listing and contents equal the model; in every state every name of the set is probed with has_stream/read_stream, the raw container entry list is compared with the listing, and the package is saved and reopened; a second exploration starts from a signed seed.",
    "Trusted: the stream-name reference in ops.rs (what must be accepted / refused / is left open), dec.rs name mangler.",
    "DESIGN.md §4 C11"),
+ "C06": (E2, "model_checking",
+   "bounded-exhaustive factored product over column definitions (type word: every string width x flags x category; validation row: ranges x categories x enum lists x foreign keys; lists and names), each created on the real Package, observed, saved, reopened",
+   "Every case is one create_table on a fresh package: if accepted, all attribute getters equal the request immediately and after save + reopen (the foreign key via the independent decoder); if refused, the package is identical to a fresh one. G1 covers every string width 0..=65535 x 8 flag combinations x 3 categories; G2 the full product of 7 ranges x 27 categories x 10 enum lists x 6 foreign keys x nullable x 3 types; G3 every column count 1..33 and names of every length 1..66.",
+   "Trusted: the factoring argument (type word and validation row are independent records); snapshot code; dec.rs for the foreign key.",
+   "DESIGN.md §4 C06"),
+ "C07": (E2, "model_checking",
+   "bounded-exhaustive: (column definition x value) product for gate equivalence; all strings up to a length over per-category adversarial alphabets vs a three-valued grammar reference; GUID mutants; library-built values",
+   "insert Ok <=> update Ok <=> is_valid_value <=> reference for 150 column definitions x 52 values and all arities 0..33; every string of length <= 5 (thorough 7) over each category's alphabet for all 26 categories, all single (thorough double) substitutions/deletions/insertions of a valid GUID; Value::from(Uuid) / Value::from(&[Language]) over structured sets. Panics are violations.",
+   "Trusted: the three-valued reference in spec.rs (accept/reject demanded, 'unspecified' only totality). Random strings are sampling and not done.",
+   "DESIGN.md §4 C07, appendix B"),
+ "C12": (E2, "model_checking",
+   "bounded-exhaustive enumeration of select trees (filters, projections, inner/left joins, self-joins, joins of joins) x all small table contents vs a reference nested-loop evaluator",
+   "Every tree of the family (173 k in the thorough tier) is executed on the real package for every content of two base tables with <= 2 rows over {null,1,2} (256 contents) and compared with the reference: Ok/Err, column names, rows in order, reported length, nullability of the right side of a left join; unknown tables/columns in every position must be errors, never panics.",
+   "Trusted: the reference evaluator in c12.rs (appendix C); ambiguous names (self-joins) only totality.",
+   "DESIGN.md §4 C12"),
 }
 PENDING_REASON = "check not built yet (work in progress; DESIGN.md names the planned engine)"
 
